@@ -20,6 +20,7 @@ struct State {
     uint64_t rng = 1;
     int mode = 0;            // 0 natural, 1 reverse scan, 2 random permutation, 3 forced permutation at one site,
                              // 4 laggard: one rank (perm_index mod size) holds back each of its first sends by max_delay_us, nobody else delays
+                             // 5 slow tag: every send with tag site_tag leaves max_delay_us late, on rank perm_index - 1 (perm_index 0: on all ranks)
     int sends_seen = 0;
     bool ssend = false;      // standard-mode sends complete synchronously (MPI permits it: a correct program may not rely on buffering)
     int site_tag = -1;       // for mode 3: the wildcard site (identified by its tag)
@@ -57,8 +58,13 @@ inline int world_rank_of(MPI_Comm c, int r) {
     MPI_Group g, w; PMPI_Comm_group(c, &g); PMPI_Comm_group(MPI_COMM_WORLD, &w);
     int out; PMPI_Group_translate_ranks(g, 1, &r, w, &out); PMPI_Group_free(&g); PMPI_Group_free(&w); return out;
 }
-inline void maybe_delay(bool is_send = false) {
+inline void maybe_delay(bool is_send = false, int tag = -1) {
     if (!S.active || S.max_delay_us <= 0) return;
+    if (S.mode == 5) {
+        int rank; PMPI_Comm_rank(MPI_COMM_WORLD, &rank);
+        if (is_send && tag == S.site_tag && (S.perm_index == 0 || rank == S.perm_index - 1)) { usleep((useconds_t)S.max_delay_us); S.delays++; }
+        return;
+    }
     if (S.mode == 4) {      // the laggard's first sends leave late: everybody else runs ahead (a whole package construction, if nothing stops them)
         int rank, n; PMPI_Comm_rank(MPI_COMM_WORLD, &rank); PMPI_Comm_size(MPI_COMM_WORLD, &n);
         if (is_send && rank == S.perm_index % n && S.sends_seen++ < 3) { usleep((useconds_t)S.max_delay_us); S.delays++; }
@@ -117,16 +123,16 @@ int MPI_Irecv(void* buf, int count, MPI_Datatype dt, int source, int tag, MPI_Co
     return PMPI_Irecv(buf, count, dt, source, tag, comm, req);
 }
 int MPI_Isend(const void* buf, int count, MPI_Datatype dt, int dest, int tag, MPI_Comm comm, MPI_Request* req) {
-    vl::maybe_delay(true); vl::rec(1, comm, vl::S.active ? vl::world_rank_of(comm, dest) : 0, tag, count);
+    vl::maybe_delay(true, tag); vl::rec(1, comm, vl::S.active ? vl::world_rank_of(comm, dest) : 0, tag, count);
     if (vl::S.active && vl::S.ssend) return PMPI_Issend(buf, count, dt, dest, tag, comm, req);
     return PMPI_Isend(buf, count, dt, dest, tag, comm, req);
 }
 int MPI_Issend(const void* buf, int count, MPI_Datatype dt, int dest, int tag, MPI_Comm comm, MPI_Request* req) {
-    vl::maybe_delay(true); vl::rec(1, comm, vl::S.active ? vl::world_rank_of(comm, dest) : 0, tag, count);
+    vl::maybe_delay(true, tag); vl::rec(1, comm, vl::S.active ? vl::world_rank_of(comm, dest) : 0, tag, count);
     return PMPI_Issend(buf, count, dt, dest, tag, comm, req);
 }
 int MPI_Send(const void* buf, int count, MPI_Datatype dt, int dest, int tag, MPI_Comm comm) {
-    vl::maybe_delay(true); vl::rec(1, comm, vl::S.active ? vl::world_rank_of(comm, dest) : 0, tag, count);
+    vl::maybe_delay(true, tag); vl::rec(1, comm, vl::S.active ? vl::world_rank_of(comm, dest) : 0, tag, count);
     if (vl::S.active && vl::S.ssend) return PMPI_Ssend(buf, count, dt, dest, tag, comm);
     return PMPI_Send(buf, count, dt, dest, tag, comm);
 }
